@@ -24,6 +24,8 @@ type vstore struct {
 	log    []string // names of the calls inside the current operation
 	failAt int      // -1: no injected failure in the current operation
 	failed string   // name of the call that failed ("" if none)
+
+	sessions bool // the values are session blobs: a tick also ages the Token.Expiration kept inside them (ageSessions)
 }
 
 type vent struct {
